@@ -13,6 +13,8 @@
                falling off a non-void function)
      COob      a load or store outside the byte list that stands for the
                object a pointer parameter points to
+     CFuel     a loop did not finish within the number of iterations (fuel)
+               the caller of the rendering allowed; says nothing about the C
 
    Platform: LP64, two's complement, CHAR_BIT = 8.  Implementation-defined
    choices are those of gcc/clang: conversion to a signed type wraps modulo
@@ -27,16 +29,19 @@ Inductive cub : Type :=
 Inductive cres (A : Type) : Type :=
 | COk (a : A)
 | CUB (why : cub)
-| COob.
+| COob
+| CFuel.
 Arguments COk {A} a.
 Arguments CUB {A} why.
 Arguments COob {A}.
+Arguments CFuel {A}.
 
 Definition bind {A B : Type} (m : cres A) (f : A -> cres B) : cres B :=
   match m with
   | COk a => f a
   | CUB w => CUB w
   | COob => COob
+  | CFuel => CFuel
   end.
 
 Declare Scope csem_scope.
@@ -174,6 +179,29 @@ Definition c_store (m : list N) (i v : cres Z) : cres (list N) :=
    whose address is passed to a callee): None = not assigned yet *)
 Definition c_cell_read (c : option Z) : cres Z :=
   match c with Some v => COk v | None => CUB UB_uninit_read end.
+
+(* ---------- loops ---------- *)
+
+(* one iteration of a loop over the state s (the variables and byte objects the
+   loop mentions): go round again, leave the loop, or return from the function *)
+Inductive lstep (S R : Type) : Type :=
+| LNext (s : S)
+| LBreak (s : S)
+| LRet (r : R).
+Arguments LNext {S R} s.
+Arguments LBreak {S R} s.
+Arguments LRet {S R} r.
+
+Fixpoint c_while {S R : Type} (fuel : nat) (step : S -> cres (lstep S R)) (s : S) : cres (lstep S R) :=
+  match fuel with
+  | O => CFuel
+  | Datatypes.S f =>
+      r <- step s ;;
+      match r with
+      | LNext s' => c_while f step s'
+      | _ => COk r
+      end
+  end.
 
 (* __builtin_{s,u}add/sub/mul{,l,ll}_overflow(a, b, &r), as gcc documents it: the
    operation is carried out on the mathematical values; r receives the result
